@@ -146,7 +146,7 @@ SRC_TIE = {
             'RoundTrip': ['VbsWriter.write', 'VbsWriter.close', 'VbsReader.__next__']},
     'C11': {'Writer': ['VbsWriter.write', 'VbsWriter.close', 'VbsWriter.__exit__']},
     'C09': {'Reader': ['VbsReader.__next__']},
-    'C10': {'Reader': ['VbsReader.__next__']},
+    'C10': {'Reader': ['VbsReader.__next__'], 'IpmReader': ['IpmReader.__next__', 'VbsReader.__next__']},
     'C04': {'Block': ['Block1014.write', 'Block1014.finalise'], 'OneShot': ['block_1014', 'unblock_1014']},
     'C05': {'Unblock': ['Unblock1014.read', 'Block1014.write', 'Block1014.finalise'],
             'OneShot': ['block_1014', 'unblock_1014']},
